@@ -6,7 +6,8 @@ class Engine(DbEngine):
     prop = 'C16'
     profiles = ('debug',)
     weights = {'new': 5, 'addr': 3, 'delete': 3, 'remove': 1.5, 'resubmit': 1, 'reopen': 2, 'rebuild': 2.5, 'xput': 2, 'query': 1, 'qown': 1, 'giftwrap': 0.3}
-    aspects = {'addrs.find', 'query', 'stats.del', 'rebuild', 'rebuild-compact', 'stats.main', 'ids.hash', 'stats.tags', 'addrs.asof', 'reopen', 'extra', 'ids.del', 'rebuild-preserves', 'offs', 'reopen-preserves', 'ids.has'}
+    aspects = {'addrs.find', 'query', 'stats.del', 'rebuild', 'rebuild-compact', 'stats.main', 'ids.hash', 'stats.tags', 'addrs.asof', 'reopen', 'extra', 'ids.del', 'rebuild-preserves', 'offs', 'reopen-preserves', 'ids.has', 'map.bytes'}
+    with_map = True
     quick = (120, 30)
     thorough = (2000, 70)
     rule = "histories with removed/replaced/deleted/ephemeral/failed-store leftovers, address markers with empty/long(183..476)/binary d values, extra tables with rows; reopen and rebuild inserted at random positions (several per history). oracle: the full observation dump (every id, address, counter, extra table, query battery) is identical before and after; after rebuild the event space equals the retrievable events' aligned sizes exactly and the backup files exist. non-trivial = history with >= 2 stores"
